@@ -74,6 +74,38 @@ Proof.
   apply propagateAll_settled; [exact Ho|]. eapply single_driver_perm; eauto.
 Qed.
 
+Lemma construction_order_independent_thm : forall (St : Type) (d1 d2 : design St) succ1 succ2 K l1 l2 (vs : list Z),
+  same_netlist d1 d2 -> single_driver (combs d1) -> (forall c, In c (combs d1) -> definite c) ->
+  represents (combs d1) succ1 -> represents (combs d2) succ2 ->
+  (forall i, ~ self_loop succ1 i) -> (forall i, ~ self_loop succ2 i) ->
+  sort_fuel succ1 K (seq 0 (length (combs d1))) = Some l1 ->
+  sort_fuel succ2 K (seq 0 (length (combs d2))) = Some l2 ->
+  propagateAll (with_combs d1 (reorder (combs d1) l1)) vs = propagateAll (with_combs d2 (reorder (combs d2) l2)) vs.
+Proof.
+  intros St d1 d2 succ1 succ2 K l1 l2 vs [Hw P] Hsd Hdef R1 R2 N1 N2 S1 S2.
+  assert (Hsd2 : single_driver (combs d2)) by (eapply single_driver_perm; eauto).
+  destruct (sort_fuel_sound succ1 K _ l1 (seq_NoDup _ _) S1) as [P1 T1].
+  destruct (sort_fuel_sound succ2 K _ l2 (seq_NoDup _ _) S2) as [P2 T2].
+  assert (Hv1 : forall i, In i l1 -> i < length (combs d1)).
+  { intros i Hi. apply (Permutation_in _ (Permutation_sym P1)) in Hi. apply in_seq in Hi. lia. }
+  assert (Hv2 : forall i, In i l2 -> i < length (combs d2)).
+  { intros i Hi. apply (Permutation_in _ (Permutation_sym P2)) in Hi. apply in_seq in Hi. lia. }
+  assert (Hn1 : NoDup l1) by (eapply Permutation_NoDup; [exact P1|apply seq_NoDup]).
+  assert (Hn2 : NoDup l2) by (eapply Permutation_NoDup; [exact P2|apply seq_NoDup]).
+  assert (O1 : ordered (reorder (combs d1) l1)).
+  { apply (reorder_ordered (combs d1) succ1 l1 R1 Hv1). apply topo_strict; auto. intros x _. apply N1. }
+  assert (O2 : ordered (reorder (combs d2) l2)).
+  { apply (reorder_ordered (combs d2) succ2 l2 R2 Hv2). apply topo_strict; auto. intros x _. apply N2. }
+  assert (Q1 : Permutation (combs d1) (reorder (combs d1) l1)) by (apply reorder_perm; exact P1).
+  assert (Q2 : Permutation (combs d2) (reorder (combs d2) l2)) by (apply reorder_perm; exact P2).
+  apply order_independent; cbn [combs with_combs]; auto.
+  - split; cbn [widths combs with_combs]; [exact Hw|].
+    eapply perm_trans; [apply Permutation_sym, Q1|]. eapply perm_trans; [exact P|exact Q2].
+  - eapply single_driver_perm; eauto.
+  - eapply single_driver_perm; eauto.
+  - intros c Hc. apply Hdef. eapply Permutation_in; [apply Permutation_sym, Q1|exact Hc].
+Qed.
+
 Lemma selfloop_refuted_thm : exists succ l x,
   NoDup l /\ closed succ l /\ In x l /\ self_loop succ x /\ sort_fuel succ py4hw_loop_limit l = Some l.
 Proof.
